@@ -169,7 +169,8 @@ def audit_assumptions(text):
 
 def coqchk_audit(pid, timeout=1500):
     """thorough tier: re-check the compiled statement file and everything it depends on with the independent checker"""
-    rc, out, err = sh(["coqchk", "-o", "-silent", "-Q", "theories", "RIO", "-Q", "gen", "RIOGen", "-Q", "properties", "RIOProps", f"RIOProps.{pid}"], timeout, cwd=COQ)
+    mods = [f"RIOProps.{m}" for m in [pid] + list(props.PROPS.get(pid, {}).get("extra_props", []))]
+    rc, out, err = sh(["coqchk", "-o", "-silent", "-Q", "theories", "RIO", "-Q", "gen", "RIOGen", "-Q", "properties", "RIOProps"] + mods, timeout, cwd=COQ)
     text = (out or "") + (err or "")
     ok = rc == 0
     summary = {}
